@@ -35,7 +35,15 @@ def run(cmd, cwd, env=None, timeout=1800):
 
 
 def main() -> int:
-    dirs = sys.argv[1:]
+    args = sys.argv[1:]
+    suffix = ""
+    wtroot = "/tmp/wt"
+    if args and args[0] == "--round":
+        # e.g. --round 2  -> ids <prop>-2<k>, agents worked in /tmp/wt<round>/<prop>
+        suffix = args[1]
+        wtroot = f"/tmp/wt{args[1]}"
+        args = args[2:]
+    dirs = args
     wt = tempfile.mkdtemp(prefix="seedverify_", dir="/tmp")
     os.rmdir(wt)
     subprocess.run(f"git -C /repo worktree add --detach {wt} HEAD", shell=True, check=True, capture_output=True)
@@ -47,13 +55,13 @@ def main() -> int:
             d = d.rstrip("/")
             prop = os.path.basename(os.path.dirname(d))
             k = os.path.basename(d)
-            sid = f"{prop}-{k}"
+            sid = f"{prop}-{suffix}{k}" if suffix else f"{prop}-{k}"
             patch, demo = os.path.join(d, "patch.diff"), os.path.join(d, "demo.py")
             if not (os.path.isfile(patch) and os.path.isfile(demo)):
                 print(f"{sid}: incomplete (patch.diff / demo.py missing)")
                 continue
             # demos written by the agents may hard-code their own worktree path: run them from a copy
-            demo_src = open(demo).read().replace(f"/tmp/wt/{prop}", wt)
+            demo_src = open(demo).read().replace(f"{wtroot}/{prop}", wt)
             demo_tmp = os.path.join(wt, "_seed_demo.py")
             open(demo_tmp, "w").write(demo_src)
             ran = []
@@ -93,7 +101,7 @@ def main() -> int:
             meta["confirmed"] = ran
             meta["how_to_run_demo"] = (
                 "in a checkout of /repo with the patch applied: PYTHONPATH=<checkout>/src /venv/bin/python demo.py "
-                f"(paths /tmp/wt/{prop} inside demo.py refer to the sub-agent's scratch worktree; replace them)"
+                f"(paths {wtroot}/{prop} inside demo.py refer to the sub-agent's scratch worktree; replace them)"
             )
             json.dump(meta, open(os.path.join(dest, "meta.json"), "w"), indent=1)
             kept += 1
